@@ -4,10 +4,12 @@
    action rejects"; the 85 KB generated parser is tied to that by differential testing (translation
    validation, not a theorem).  Proved here: the start rule of the regenerated grammar never fails to
    match (every rejection is raised by an action), and every syntax error reports a character offset
-   inside the path.  NOT yet proved: that the offset of `unrecognized input` is exactly the end of the
-   match of `jsonpath?` (it holds by the token order of the interpreter; compared with the library on
-   every generated string, together with `near` = rest of the path from that character). *)
-From JP Require Import Peg Grammar Text Tree Actions PegFacts ParseFacts.
+   inside the path, and the offset of `unrecognized input` is EXACTLY the end of the match of
+   `jsonpath?` (C17_unrecognized_offset: action 1 is emitted only by the catch-all alternative, after
+   the capture that begins where `jsonpath?` stopped; no rule below `jsonpath` writes action 1 — a
+   closure check evaluated on the regenerated grammar).  `near` = rest of the path from that character
+   is compared with the library on every generated string (the model does not carry `near`). *)
+From JP Require Import Peg Grammar Text Tree Actions PegFacts ParseFacts ErrPos.
 
 Theorem C17_expression_total : forall fuel s pos, run jsonpath_grammar fuel (PRef 0) s pos <> PFail.
 Proof. exact expression_total. Qed.
@@ -17,6 +19,12 @@ Theorem C17_syntax_error_inside_partial : forall cfg parse_float regex_ok g inpu
   parse_with cfg parse_float regex_ok g input = ParseErr (ESyntax p r) -> p <= List.length input.
 Proof. exact syntax_error_inside. Qed.
 Print Assumptions C17_syntax_error_inside_partial.
+
+Theorem C17_unrecognized_offset : forall cfg parse_float regex_ok input p,
+  parse_with cfg parse_float regex_ok jsonpath_grammar input = ParseErr (ESyntax p RUnrecognized) ->
+  exists fuel rest toks, run jsonpath_grammar fuel (POpt (PRef 2)) input 0 = POk rest p toks.
+Proof. exact unrecognized_offset. Qed.
+Print Assumptions C17_unrecognized_offset.
 
 (* for every grammar: a successful match advances by what it consumed and every capture lies inside it *)
 Theorem C17_position_accounting : forall g f e rest pos r p t,
